@@ -947,11 +947,12 @@ pub fn buildbig_line(run: u8, len: usize, tail: Option<u8>, ecl: Option<usize>) 
     let head = format!("buildbig {:02x} {} {} {} => ", run, len, tail.map_or("-".to_string(), |t| format!("{:02x}", t)), opt(ecl));
     let exe = std::env::current_exe().unwrap();
     let mine = buildbig_with(&exe, &head, run, len, tail, ecl);
-    // the same build in the UNOPTIMISED binary (`/verif/harness/target-o0`, what a plain `cargo build` produces): its result
+    // the same build in the UNOPTIMISED binary (`harness/target-o0`, what a plain `cargo build` produces): its result
     // is reported instead when it differs (e.g. the child died of stack exhaustion there)
-    let o0 = std::path::Path::new("/verif/harness/target-o0/debug/fqv");
+    // <harness>/target*/debug/fqv -> <harness>/target-o0/debug/fqv
+    let o0 = exe.parent().and_then(|p| p.parent()).and_then(|p| p.parent()).map(|h| h.join("target-o0/debug/fqv")).unwrap_or_default();
     if o0.exists() && exe != o0 {
-        let other = buildbig_with(o0, &head, run, len, tail, ecl);
+        let other = buildbig_with(&o0, &head, run, len, tail, ecl);
         if other != mine {
             let res = other[head.len()..].chars().take(60).collect::<String>().replace(' ', "-");
             return format!("{}trap in-the-unoptimised-build:{}", head, res);
